@@ -6,6 +6,7 @@ export GOWORK=off GOFLAGS=-mod=mod GOPROXY=off GOSUMDB=off GOTOOLCHAIN=local CGO
 mkdir -p bin evidence replays
 if [ -d extract ]; then (cd extract && go build -o ../bin/extract . && ../bin/extract -repo "${VERIF_REPO:-/repo}" -out ../lean/ObiVerif/Gen); fi
 (cd lean && lake build $(ls Driver/Main*.lean | sed 's|Driver/Main\(.*\)\.lean|vm_\1|'))
+./scripts/genroot.py
 # theorems: a failure here is reported by the property's own check, not by setup
 (cd lean && lake build ObiVerif) || echo "setup: WARNING some proof modules do not build"
 cp "${VERIF_REPO:-/repo}/go.sum" harness/go.sum
